@@ -120,6 +120,8 @@ def build_pdb(chains):
             residues[-1]['names'].append(a['name'].strip())
             if a['name'].strip() == 'CA':
                 residues[-1]['ca'] = xyz
+            if a['name'].strip() == 'SG':
+                residues[-1]['sg'] = xyz
         lines.append('TER')
         serial += 1
     lines.append('END')
@@ -138,8 +140,8 @@ def contact_file(entries, noise=True):
     head = 'Contact map written by the C18 harness\n\nResidue-Residue Contacts\n\n      ID    I1  AA  C I(PDB)     I2  AA  C I(PDB)\n' + '=' * 60 + '\n'
     body = ''.join(contact_line(i, e) for i, e in enumerate(entries, 1))
     if noise:       # lines the documented format does not count as contacts: not 18 columns / first column not R
-        body += 'R      0     1  XXX A    1        2  YYY A    2       6.0000     1 1 1 1     1     10\n'
-        body += 'X      0     1  XXX A    1        2  YYY A    2       6.0000     1 1 1 1     1     10    0\n'
+        body += 'R      0     1  XXX Q    1        2  YYY Q    2       6.0000     1 1 1 1     1     10\n'
+        body += 'X      0     1  XXX Q    1        2  YYY Q    2       6.0000     1 1 1 1     1     10    0\n'
     return head + body
 
 
@@ -341,10 +343,10 @@ def project_files(files, name, vsname):
     """The written files as the record spec/GoFiles.tla judges.  Nothing is decided here."""
     out = {'has': {'itp': name + '.itp' in files, 'types': 'go_atomtypes.itp' in files, 'nb': 'go_nbparams.itp' in files,
                    'top': 'topol.top' in files, 'pdb': 'cg.pdb' in files},
-           'moltype': '-', 'nrexcl': '-', 'atoms': [], 'vs': [], 'excl': [], 'exclbad': False, 'othervs': 0, 'decl': [], 'declok': False,
+           'moltype': '-', 'nrexcl': '-', 'atoms': [], 'vs': [], 'excl': [], 'exclbad': False, 'decl': [], 'declok': False,
            'nb': [], 'nbok': False, 'top': {'defines': [], 'includes': [], 'molecules': []}, 'edges': [], 'joined': False,
            'itps': sorted(f for f in files if f.endswith('.itp'))}
-    if not all(out['has'].values()):
+    if not all(v for k, v in out['has'].items() if k != 'nb'):
         return out
     itp = indep_readers.read_itp(files[name + '.itp'])
     pdb = indep_readers.read_pdb(files['cg.pdb'])
@@ -380,25 +382,37 @@ def project_files(files, name, vsname):
                 seen.add(e)
     out['edges'] = [list(e) for e in sorted(seen)]
     out['decl'], out['declok'] = read_types(files['go_atomtypes.itp'])
-    out['nb'], out['nbok'] = read_nb(files['go_nbparams.itp'])
+    # vermouth writes no go_nbparams.itp at all when no pair potential was selected: an absent file has no lines
+    out['nb'], out['nbok'] = read_nb(files['go_nbparams.itp']) if out['has']['nb'] else ([], True)
     return out
 
 
-def assign_old(fatoms, vsname, olds):
-    """old (input) residue number of every particle that is not a Go site: the k-th residue of the written molecule is the k-th
-    residue of `olds` ([chain, number] per residue).  Returns False when the residue sequences cannot be aligned."""
-    k, prev = -1, None
+def assign_old(fatoms, vsname, residues):
+    """Input residue number (`old`) of every written particle that is not a Go site.  The written files do not say which input
+    residue a particle belongs to (the order of residues in the written molecule is not always the order of the input, and the
+    written numbers are the merged ones), so residues are identified by geometry: the backbone bead of a written residue lies
+    within 2 A of the C-alpha of exactly one input residue (neighbouring C-alphas are 3.8 A apart).  Written residues are the
+    groups of equal (chain, number, name).  Returns '' or the reason why the identification failed (a binding problem)."""
+    groups = {}
     for a in fatoms:
-        if a['name'] == vsname:
-            continue
-        rid = (a['chain'], a['resid'], a['resname'])
-        if rid != prev:
-            k += 1
-            prev = rid
-        if k >= len(olds) or olds[k][0] != a['chain']:
-            return False
-        a['old'] = olds[k][1]
-    return k + 1 == len(olds)
+        if a['name'] != vsname:
+            groups.setdefault((a['chain'], a['resid'], a['resname']), []).append(a)
+    used = set()
+    for rid, members in groups.items():
+        anchor = [a for a in members if a['name'] == 'BB'] or members[:1]
+        pos = [c / 1000.0 for c in anchor[0]['pos']]
+        best = sorted((math.sqrt(sum((pos[k] - r['ca'][k]) ** 2 for k in range(3))), i) for i, r in enumerate(residues) if r['ca'])[:2]
+        if not best or best[0][0] > 2.0 or (len(best) > 1 and best[1][0] < 2.6):
+            return 'written residue %s%d%s has no unique input residue within 2 A of its backbone bead' % rid
+        r = residues[best[0][1]]
+        if r['chain'] != rid[0] or best[0][1] in used:
+            return 'written residue %s%d%s maps to input residue %s%d%s' % (rid + (r['chain'], r['resid'], r['resname']))
+        used.add(best[0][1])
+        for a in members:
+            a['old'] = r['resid']
+    if len(used) != len(residues):
+        return 'written molecule has %d residues, the input %d' % (len(used), len(residues))
+    return ''
 
 
 def parse_written_map(text):
@@ -460,8 +474,17 @@ def gen_entries(rng, residues, opts, want=16):
     inside = [p for p in pairs if residues[p[0]]['chain'] == residues[p[1]]['chain'] and abs(p[0] - p[1]) > sep + 1
               and lo + 0.5 < _approx(residues, *p) < up - 0.5]
     beyond = [p for p in pairs if up + 0.3 < _approx(residues, *p) < up + 4.0]
+    # residues next to a disulfide bridge (S-S below 2.5 A in the input): close on the residue graph, far apart by number
+    bridge = []
+    for i in usable:
+        for j in usable:
+            if i < j and 'sg' in residues[i] and 'sg' in residues[j] and abs(i - j) > 2 and \
+                    math.sqrt(sum((residues[i]['sg'][k] - residues[j]['sg'][k]) ** 2 for k in range(3))) < 2.5:
+                bridge += [(i + di, j + dj) for di in (-1, 0, 1) for dj in (-1, 0, 1)
+                           if (di or dj) and i + di in usable and j + dj in usable and residues[i + di]['chain'] == residues[i]['chain']
+                           and residues[j + dj]['chain'] == residues[j]['chain']]
     chosen = []
-    for bucket, k in ((inter, 5), (near, 3), (close, 2), (inside, 6), (beyond, 3)):
+    for bucket, k in ((inter, 5), (near, 3), (close, 2), (inside, 6), (beyond, 3), (bridge, 3)):
         rng.shuffle(bucket)
         chosen += bucket[:k]
     rng.shuffle(pairs)
@@ -564,16 +587,35 @@ WATER_VARIANTS = [
 ]
 
 
-def water_variants(rng, residues, lines, k):
-    """Regions are chosen so that some listed contact joins a disordered and a folded residue."""
+def water_variants(rng, residues, lines, k, opts=None):
+    """Regions are placed on residues of listed pairs that probably get a potential (listed both ways, estimated distance inside
+    the window, far apart in sequence), so that some potentials join a disordered and a folded residue, some two disordered."""
+    where = {(r['chain'], r['resid']): i for i, r in enumerate(residues)}
+    taken = {tuple(ln[:4]) for ln in lines if ln[4] == 1 or ln[5] == 1}
+    good = []
+    for ln in lines:
+        a, b = where.get((ln[1], ln[0])), where.get((ln[3], ln[2]))
+        if a is None or b is None or a == b or (ln[2], ln[3], ln[0], ln[1]) not in taken or tuple(ln[:4]) not in taken:
+            continue
+        d = _approx(residues, a, b)
+        if opts is None or (opts['lo'] / 1000.0 + 0.5 < d < opts['up'] / 1000.0 - 0.5 and
+                            (residues[a]['chain'] != residues[b]['chain'] or abs(a - b) > opts['sep'] + 1)):
+            good.append(ln)
+    good = good or lines
+    later = [ln for ln in good if ln[1] != residues[0]['chain']]       # residues whose merged number is not their input number
+    if later and rng.random() < 0.8:
+        good = later
     numbers = sorted({r['resid'] for r in residues})
     out = []
     for v in rng.sample(WATER_VARIANTS, k):
         regs = {}
         for tag in v['regions']:
-            ln = rng.choice(lines)
-            first = ln[0] - rng.randint(0, 2)
-            regs[tag] = [first, first + rng.randint(1, 4)]
+            ln = rng.choice(good)
+            if rng.random() < 0.3 and abs(ln[0] - ln[2]) < 12:            # both residues of a pair inside one region
+                regs[tag] = [min(ln[0], ln[2]), max(ln[0], ln[2])]
+            else:
+                first = ln[0] - rng.randint(0, 2)
+                regs[tag] = [first, max(ln[0], first + rng.randint(1, 4))]
         if len(regs) == 2 and not (regs['R1'][1] < regs['R2'][0] or regs['R2'][1] < regs['R1'][0]):
             regs['R2'] = [numbers[-1] - 1, numbers[-1] + 3]
         out.append({'args': ['%d:%d' % tuple(regs[a]) if a in regs else a for a in v['args']], 'regions': [regs[t] for t in v['regions']]})
@@ -585,14 +627,15 @@ def _rc(rec):
     return 0 if rec.get('rc') == 0 and not rec.get('exc') else 1
 
 
-def _olds_from_snapshot(rec):
-    out, prev = [], None
-    for a in rec.get('snap', {}).get('atoms', []):
-        rid = (a['chain'], a['resid'], a['resname'])
-        if rid != prev:
-            out.append([a['chain'], a['old']])
-            prev = rid
-    return out
+def _memory_olds(rec):
+    """(chain, merged number) -> _old_resid as the molecule in memory has it when site creation starts."""
+    return {(a['chain'], a['resid']): a['old'] for a in rec.get('snap', {}).get('atoms', [])}
+
+
+def _old_differs(rec, fev):
+    """Does a residue carry another input number in memory (_old_resid) than the harness identified from the input?"""
+    mem = _memory_olds(rec)
+    return any(mem.get((a['chain'], a['resid']), a['old']) != a['old'] for a in fev['files']['atoms'] if a['name'] != fev['opts']['vs'])
 
 
 def mem_event(sc, rec, fam=None):
@@ -604,16 +647,16 @@ def mem_event(sc, rec, fam=None):
     return {'kind': 'climem', 'fam': fam or sc['fam'], 'tol': TOL, 'g': g, 'post': post}
 
 
-def file_event(sc, rec, lines, olds, fam=None):
+def file_event(sc, rec, lines, residues, fam=None):
     o = sc['opts']
     f = project_files(rec.get('files', {}), o['name'], o['vs'])
-    aligned = assign_old(f['atoms'], o['vs'], olds) if f['atoms'] else False
+    why = assign_old(f['atoms'], o['vs'], residues) if f['atoms'] else ''
     ev = {'kind': 'clifile', 'fam': fam or sc['fam'], 'tol': TOL, 'rc': _rc(rec), 'opts': dict(o),
           'lines': [{'ra': ln[0], 'ca': ln[1], 'rb': ln[2], 'cb': ln[3], 'ov': ln[4], 'rcsu': ln[5]} for ln in lines], 'files': f}
-    return ev, aligned
+    return ev, why
 
 
-def _binding_problems(sc, rec, fev, aligned):
+def _binding_problems(sc, rec, fev, aligned):        # aligned: '' or the reason assign_old gave
     """Things that make a recording unusable (exit 2), never a violation: harness errors, residues that cannot be aligned with
     the input, bonds in cg.pdb (CONECT) that are not the bonds of the molecule in memory."""
     if rec.get('harness_error'):
@@ -622,8 +665,8 @@ def _binding_problems(sc, rec, fev, aligned):
         return ''
     if not fev['files']['atoms']:
         return ''
-    if not aligned:
-        return 'residues of the written molecule cannot be aligned with the residues of the input'
+    if aligned:
+        return aligned
     n = len(rec['snap'].get('atoms', []))
     mem = sorted(sorted(e) for e in rec['snap'].get('edges', []))
     fil = sorted(sorted(e) for e in fev['files']['edges'] if e[0] <= n and e[1] <= n)
@@ -664,24 +707,25 @@ def run_job(job):
         _, text, residues = layout(sc['layout'])
         with open(os.path.join(work, 'in.pdb'), 'w') as fh:
             fh.write(text)
-        olds_in = [[r['chain'], r['resid']] for r in residues]
         oargs = option_args(sc['opts'])
         if sc['mode'] in ('file', 'wb'):
             with open(os.path.join(work, 'in.map'), 'w') as fh:
                 fh.write(contact_file(sc['lines']))
             rec = run_entry(work, base_args(sc['ss']) + ['-go', 'in.map'] + oargs)
-            fev, aligned = file_event(sc, rec, sc['lines'], olds_in)
+            fev, aligned = file_event(sc, rec, sc['lines'], residues)
             out['problems'].append(_binding_problems(sc, rec, fev, aligned))
-            out['events'] += [mem_event(sc, rec), fev]
+            base = 'cli-wb-base' if sc['mode'] == 'wb' else None
+            fev['fam'] = base or fev['fam']
+            out['events'] += [mem_event(sc, rec, fam=base), fev]
             out['info'] = {'merged': rec.get('merged', [])[:1], 'log': rec.get('log', '')[-400:] if _rc(rec) else '', 'exc': rec.get('exc', ''),
-                           'old_shifted': _olds_from_snapshot(rec) != olds_in}
+                           'old_in_memory_differs': _old_differs(rec, fev)}
             for i, var in enumerate(sc['variants']):
                 wdir = os.path.join(work, 'v%d' % i)
                 os.makedirs(wdir)
                 shutil.copy(os.path.join(work, 'in.pdb'), wdir)
                 shutil.copy(os.path.join(work, 'in.map'), wdir)
                 rec2 = run_entry(wdir, base_args(sc['ss']) + ['-go', 'in.map'] + oargs + var['args'])
-                fev2, aligned2 = file_event(sc, rec2, sc['lines'], olds_in)
+                fev2, aligned2 = file_event(sc, rec2, sc['lines'], residues)
                 out['problems'].append(_binding_problems(sc, rec2, fev2, aligned2))
                 out['events'].append(mem_event(sc, rec2, fam='cli-wb-variant'))
                 out['events'].append({'kind': 'wb', 'fam': 'cli-wb', 'tol': TOL, 'rc': max(_rc(rec), _rc(rec2)), 'opts': dict(sc['opts']),
@@ -689,8 +733,7 @@ def run_job(job):
         else:
             rec = run_entry(work, base_args(sc['ss']) + ['-go', '-go-write-file', 'gen.out'] + oargs, _roundtrip_hook)
             mapped = [c + [1, 1] for m in (rec.get('gomap') or []) for c in m]
-            olds = _olds_from_snapshot(rec)
-            fev, aligned = file_event(sc, rec, mapped, olds)
+            fev, aligned = file_event(sc, rec, mapped, residues)
             out['problems'].append(_binding_problems(sc, rec, fev, aligned))
             mev = mem_event(sc, rec)
             out['events'] += [mev, fev]
@@ -699,14 +742,14 @@ def run_job(job):
                           'why': rec.get('raw', {}).get('why', ''),
                           'raw_equals_memory': sorted(rec.get('raw', {}).get('map', [])) == sorted(c[:4] for c in mapped) if rec.get('raw', {}).get('ok') else None}
             out['info'] = {'merged': rec.get('merged', [])[:1], 'log': rec.get('log', '')[-400:] if _rc(rec) else '', 'exc': rec.get('exc', ''),
-                           'old_shifted': olds != olds_in}
+                           'old_in_memory_differs': _old_differs(rec, fev)}
             back = rec.get('back', {'ok': False, 'map': []})
             out['events'].append({'kind': 'rt', 'fam': 'cli-rt', 'tol': TOL, 'rc': _rc(rec), 'g': mev['g'], 'backok': bool(back['ok']),
                                   'back': back['map'], 'legend': [{'ra': ln[0], 'ca': ln[1], 'rb': ln[2], 'cb': ln[3], 'ov': ln[4], 'rcsu': ln[5]}
                                                                     for ln in legend]})
             if back['ok']:
                 rec2 = run_entry(work, base_args(sc['ss']) + ['-go', 'gen_padded.out'] + oargs)
-                fev2, aligned2 = file_event(sc, rec2, [c + [1, 1] for c in back['map']], olds)
+                fev2, aligned2 = file_event(sc, rec2, [c + [1, 1] for c in back['map']], residues)
                 out['problems'].append(_binding_problems(sc, rec2, fev2, aligned2))
                 out['events'].append(mem_event(sc, rec2, fam='cli-gen-reread'))
                 out['events'].append({'kind': 'same', 'fam': 'cli-same', 'tol': TOL, 'rc': max(_rc(rec), _rc(rec2)), 'first': fev['files'],
@@ -718,3 +761,72 @@ def run_job(job):
         return out
     finally:
         shutil.rmtree(work, ignore_errors=True)
+
+
+# ------------------------------------------------------------------------------------------------------------ plan
+QUICK_PLAN = [     # (mode, layout, pinned options, number of water variants); gen / wb first: they are the long jobs
+    ('gen', 'IJ', {'up': 11000, 'lo': 3000, 'sep': 3, 'bb': 'BB'}, 0),      # chains in contact: the map has inter-chain entries
+    ('gen', 'W', {'bb': 'BB'}, 0),
+    ('wb', 'IJ', {'sep': 1, 'up': 15000, 'lo': 1000, 'bb': 'BB'}, 2),
+    ('wb', 'S5', {'sep': 2, 'up': 15000, 'bb': 'BB'}, 2),                    # numbered from 5: merged number /= input number
+    ('file', 'IJ', {'sep': 1, 'up': 15000, 'lo': 1000}, 0),
+    ('file', 'SS', {}, 0),
+    ('file', 'SW5', {}, 0),
+    ('file', 'IJW', {}, 0),
+    ('file', 'WSn', {'sep': 4, 'lo': 1000}, 0),
+    ('file', 'S5', {'sep': 0, 'lo': 5000}, 0),
+    ('file', 'WWW', {'up': 8000}, 0),
+    ('file', 'IJ5', {'bb': 'SC1', 'sep': 2}, 0),
+]
+
+
+def plan(tier, seed):
+    rng = random.Random(seed * 9973 + 18)
+    todo = list(QUICK_PLAN)
+    if tier != 'quick':
+        lays = sorted(LAYOUTS)
+        for k in range(360):
+            todo.append(('file', lays[k % len(lays)], {'bb': 'SC1'} if k % 7 == 3 else {}, 0))
+        for k in range(28):
+            todo.append(('gen', ['W', 'SS', 'SW5', 'IJ', 'S5', 'WSn', 'IJ5'][k % 7], {'bb': 'BB'}, 0))
+        for k in range(48):
+            todo.append(('wb', ['IJ', 'H', 'W', 'S5', 'IJ5', 'SS'][k % 6], {'sep': rng.choice([1, 2, 3]), 'up': rng.choice([11000, 15000]), 'bb': 'BB'},
+                         rng.choice([2, 3])))
+    out = []
+    for mode, lay, fixed, nvar in todo:
+        sc = make_scenario(rng, mode, lay, fixed)
+        if nvar:
+            sc['variants'] = water_variants(rng, layout(lay)[2], sc['lines'], nvar, sc['opts'])
+        out.append(sc)
+    order = {'gen': 0, 'wb': 1, 'file': 2}
+    out.sort(key=lambda sc: order[sc['mode']])
+    return out
+
+
+# -------------------------------------------------------------------------------------- worker process of harness/c18.py
+def main(argv):
+    """python -m harness.c18_real <tier> <seed> <result file>: all runs of the plan and TLC's verdicts on their events, in a
+    process of its own so that the driver can model-check and replay the generated molecules meanwhile (started with
+    subprocess, no threads involved).  The driver does the accounting (violations, vacuity, evidence)."""
+    import multiprocessing as mp
+    tier, seed, path = argv[0], int(argv[1]), argv[2]
+    preload()
+    scenarios = plan(tier, seed)
+    scratch = tempfile.mkdtemp(prefix='c18cli_')
+    try:
+        with mp.Pool(min(16, os.cpu_count() or 1)) as pool:
+            outs = pool.map(run_job, [(sc, scratch) for sc in scenarios], chunksize=1)
+    finally:
+        shutil.rmtree(scratch, ignore_errors=True)
+    from . import c18
+    batch = [(out['sc'], e) for out in outs for e in out['events']]
+    usable = not any(out['problems'] for out in outs)
+    judged = c18.judge_shards(batch, nshards=min(16, max(4, len(batch) // 3))) if usable else (0, 0, [])
+    with open(path + '.tmp', 'wb') as fh:
+        pickle.dump({'outs': outs, 'judged': judged}, fh)
+    os.replace(path + '.tmp', path)
+    return 0
+
+
+if __name__ == '__main__':
+    sys.exit(main(sys.argv[1:]))
